@@ -17,6 +17,7 @@ def judge (fam payload impl : String) : Verdict :=
   | "progress" => Progress.judge payload impl
   | "http2.conv" => Http.Driver.judgeH2 payload impl
   | "http2.raw" => Http.Driver.judgeH2Raw payload impl
+  | "http2.order" => Http.Driver.judgeH2Order payload impl
   | "http.conv" => Http.Driver.judgeConv payload impl
   | "http.split" => Http.Driver.judgeSplit payload impl
   | "http.rawsplit" => Http.Driver.judgeRawSplit payload impl
